@@ -251,10 +251,81 @@ class Inliner:
                         changed |= self._inline_in(f, {}, mfuncs, mod, None)
             if not changed:
                 break
+        self._expression_helpers()
         if self.mode == 'unknown':
             self._drop_dead_helpers()
         for tree in self.trees.values():
             ast.fix_missing_locations(tree)
+
+    def _expression_helpers(self):
+        """A helper outside the inventory whose whole body is `return <expression>` is substituted at
+        every call `self.h(args)` / `h(args)` wherever it occurs in an expression (arguments that are
+        plain names / attributes / constants only - otherwise the call stays)."""
+        for mod, tree in self.trees.items():
+            mfuncs = {n.name: n for n in tree.body if isinstance(n, ast.FunctionDef) and self._is_candidate(mod, None, n)}
+            for cls in [None] + [n for n in ast.walk(tree) if isinstance(n, ast.ClassDef)]:
+                cands = {}
+                if cls is not None:
+                    cands = {n.name: n for n in cls.body if isinstance(n, ast.FunctionDef) and self._is_candidate(mod, cls, n)}
+                cands = {k: v for k, v in cands.items() if self._expr_body(v) is not None}
+                mf = {k: v for k, v in mfuncs.items() if self._expr_body(v) is not None}
+                if not cands and not mf:
+                    continue
+                scope = cls if cls is not None else tree
+                inl = self
+
+                class T(ast.NodeTransformer):
+                    def visit_Call(self, node):
+                        self.generic_visit(node)
+                        f = node.func
+                        tgt, is_method = None, False
+                        if isinstance(f, ast.Attribute) and isinstance(f.value, ast.Name) and f.value.id == 'self' and f.attr in cands:
+                            tgt, is_method = cands[f.attr], True
+                        elif isinstance(f, ast.Name) and f.id in mf:
+                            tgt = mf[f.id]
+                        if tgt is None:
+                            return node
+                        try:
+                            bound = _bind(tgt, node, is_method)
+                        except NoInline:
+                            return node
+                        if not all(_simple(v) for v in bound.values()):
+                            return node
+                        e = copy.deepcopy(inl._expr_body(tgt))
+                        e = _Subst(bound).visit(e)
+                        inl.count += 1
+                        inl.notes.append(f'{mod}: inlined expression helper {tgt.name}')
+                        return ast.copy_location(e, node)
+                for fn in [n for n in (scope.body if cls is not None else tree.body) if isinstance(n, ast.FunctionDef)]:
+                    if fn.name in cands or (cls is None and fn.name in mf):
+                        continue
+                    T().visit(fn)
+                if cls is None:
+                    for c2 in [n for n in ast.walk(tree) if isinstance(n, ast.ClassDef)]:
+                        for fn in [n for n in c2.body if isinstance(n, ast.FunctionDef)]:
+                            if mf:
+                                T().visit(fn)
+
+    def _is_candidate(self, mod, cls, n):
+        if n.name.startswith('__') or n.decorator_list:
+            return False
+        if cls is None:
+            return f'{mod}.{n.name}' not in self.known if self.mode == 'unknown' else True
+        if (id(cls), n.name) in self.overridden:
+            return False
+        if self.mode == 'unknown':
+            return f'{mod}.{cls.name}.{n.name}' not in self.known
+        return True
+
+    @staticmethod
+    def _expr_body(fn):
+        body = fn.body
+        if body and isinstance(body[0], ast.Expr) and isinstance(body[0].value, ast.Constant) and isinstance(body[0].value.value, str):
+            body = body[1:]
+        if len(body) == 1 and isinstance(body[0], ast.Return) and body[0].value is not None and not fn.args.vararg and not fn.args.kwarg \
+                and not _has(fn, (ast.Yield, ast.YieldFrom, ast.Await, ast.Lambda, ast.NamedExpr)):
+            return body[0].value
+        return None
 
     def _drop_dead_helpers(self):
         """A helper outside the inventory that was inlined at every use is dead: remove its
